@@ -151,6 +151,26 @@ func c19Reader(c *Ctx, f, np *ssa.Function) {
 			}
 		}
 		if !good {
+			// decided on values: assume no source read reported io.EOF (every such test is false); the store must
+			// then be unreachable, whichever way the tests are arranged or repeated
+			saved := condEval
+			condEval = func(v ssa.Value) (bool, bool) {
+				if isEOFTest(v, srcReads) {
+					return false, true
+				}
+				if bo, ok := v.(*ssa.BinOp); ok && bo.Op == token.NEQ {
+					eq := *bo
+					eq.Op = token.EQL
+					if isEOFTest(&eq, srcReads) {
+						return true, true
+					}
+				}
+				return false, false
+			}
+			good = !reach([]*ssa.BasicBlock{f.Blocks[0]}, deadEdges(f))[b]
+			condEval = saved
+		}
+		if !good {
 			okSet, pos = false, st.Pos()
 		}
 	})
